@@ -6,7 +6,9 @@ CONSTANTS
   FileNames <- Files3
   MaxPerFile <- Max3
   SkipForms <- Skips
-  Locations <- Locs
+  RegLogs <- RegLogs1
+  EntryForms <- Entries
+  EntryBinding <- EntryB
   Readers <- Rdrs
   PresentChoices <- Presents
 INVARIANT C14_C16_Flatten
@@ -14,4 +16,5 @@ INVARIANT C15_Reduced
 INVARIANT C15_KnownApplied
 INVARIANT C15_UnlistedStillError
 INVARIANT C14_Resolve
+INVARIANT C14_Entry
 CHECK_DEADLOCK FALSE
